@@ -24,15 +24,30 @@ PY
 testname="demo_$(echo "$name" | tr '-' '_')"
 feat=$(echo "$demo_cmd" | grep -o -- '--features[= ][^ ]*' | head -1)
 [ -z "$(echo "$demo_cmd" | grep -- '--no-default-features')" ] && ndf="" || ndf="--no-default-features"
-mkdir -p tests; cp "$src/demo.rs" "tests/$testname.rs"
-run_demo() { cargo test --offline $ndf $feat --test "$testname" >>"$log" 2>&1; }
+demofile=demo.rs
+if [ -f "$src/demo.c" ]; then
+  demofile=demo.c
+  demo_cmd=$(grep -m1 -o 'gcc .*' "$src/demo.c" | sed 's/ *\*\/ *$//')
+  mkdir -p "$wt/target"
+  run_demo() { ( cd "$wt" && eval "$demo_cmd" ) >>"$log" 2>&1; }
+  place_demo() { :; }
+elif [ -f "$src/demo.sh" ]; then
+  demofile=demo.sh
+  demo_cmd="bash $src/demo.sh"
+  run_demo() { ( cd "$wt" && bash "$src/demo.sh" ) >>"$log" 2>&1; }
+  place_demo() { :; }
+else
+  place_demo() { mkdir -p tests; cp "$src/demo.rs" "tests/$testname.rs"; }
+  run_demo() { cargo test --offline $ndf $feat --test "$testname" >>"$log" 2>&1; }
+fi
+place_demo
 # without the patch: demo must pass
 run_demo; demo_clean=$?
 git apply "$src/patch.diff" || { echo "$prop-$name: patch does not apply"; exit 2; }
 cargo build --offline >>"$log" 2>&1; build=$?
 rm -rf tests
 base=$(cargo test --workspace --no-fail-fast --offline 2>>"$log" | grep -E "^test result" | head -1)
-mkdir -p tests; cp "$src/demo.rs" "tests/$testname.rs"
+place_demo
 run_demo; demo_mut=$?
 rm -rf tests
 echo "$prop-$name: build=$build baseline=[$base] demo_clean_exit=$demo_clean demo_mutant_exit=$demo_mut"
@@ -47,7 +62,7 @@ if $confirmed; then
     echo "   check $c quick -> exit $rc"
   done
   git checkout -q -- .
-  mkdir -p "$out"; cp "$src/patch.diff" "$src/demo.rs" "$out/"
+  mkdir -p "$out"; cp "$src/patch.diff" "$src/$demofile" "$out/"
   python3 - "$src/meta.json" "$out/meta.json" "$prop" "$name" "{${results%,}}" "$demo_cmd" <<'PY'
 import json,sys
 src,dst,prop,name,res,demo=sys.argv[1:7]
